@@ -521,7 +521,7 @@ pub fn c01(ctx: &mut Ctx) -> (u64, String) {
     let depth = if ctx.thorough() { 4 } else { 3 };
     stream_tree::<ScancodeSet2>(ctx, "tree:ScancodeSet2", depth);
     stream_tree::<Keyboard<Echo, ScancodeSet2>>(ctx, "tree:Keyboard::add_byte(Set2)", if ctx.thorough() { 3 } else { 2 });
-    crate::props::tlaconf::set2_conformance(ctx);
+    crate::props::tlaconf::set2_conformance(ctx, true);
     pump_report::<ScancodeSet2>(ctx, "pump:ScancodeSet2", 2, 300, 0);
     if ctx.thorough() {
         pump_report::<ScancodeSet2>(ctx, "pump:ScancodeSet2 (3-byte words)", 3, 12, 0);
@@ -549,7 +549,7 @@ pub fn c02(ctx: &mut Ctx) -> (u64, String) {
     let depth = if ctx.thorough() { 4 } else { 3 };
     stream_tree::<ScancodeSet1>(ctx, "tree:ScancodeSet1", depth);
     stream_tree::<Keyboard<Echo, ScancodeSet1>>(ctx, "tree:Keyboard::add_byte(Set1)", if ctx.thorough() { 3 } else { 2 });
-    crate::props::tlaconf::set1_conformance(ctx);
+    crate::props::tlaconf::set1_conformance(ctx, true);
     pump_report::<ScancodeSet1>(ctx, "pump:ScancodeSet1", 2, 300, 0);
     if ctx.thorough() {
         pump_report::<ScancodeSet1>(ctx, "pump:ScancodeSet1 (3-byte words)", 3, 12, 0);
@@ -917,8 +917,8 @@ pub fn c07(ctx: &mut Ctx) -> (u64, String) {
     let depth = if ctx.thorough() { 4 } else { 3 };
     c07_tree::<ScancodeSet2>(ctx, "difftree:ScancodeSet2", depth, 2);
     c07_tree::<ScancodeSet1>(ctx, "difftree:ScancodeSet1", depth, 1);
-    crate::props::tlaconf::set2_conformance(ctx);
-    crate::props::tlaconf::set1_conformance(ctx);
+    crate::props::tlaconf::set2_conformance(ctx, false);
+    crate::props::tlaconf::set1_conformance(ctx, false);
     pump_report::<ScancodeSet2>(ctx, "pump-resync:ScancodeSet2", 2, 300, 1);
     pump_report::<ScancodeSet1>(ctx, "pump-resync:ScancodeSet1", 2, 300, 1);
     if ctx.thorough() {
